@@ -626,7 +626,7 @@ class CntField(RawField):
         if not hasattr(self,"fcount"):
             self.fcount = self.count
         self.count = len(value)
-        if isinstance(value,list):
+        if isinstance(value,(list,tuple)):
             res = struct.pack(self.order + self.format(psize),
                               self.count, *value)
         else:
